@@ -409,8 +409,8 @@ def _run_impl(case):
                     q.pause(t)
                 out.append({'op': 'pause', 'events': list(events), 'status': status()})
             except ValueError:
-                out.append({'op': 'pause', 'raised': 'ValueError', 'events': list(events)})
-                break
+                # the rejection leaves a queue the caller keeps using: the history goes on
+                out.append({'op': 'pause', 'raised': 'ValueError', 'events': list(events), 'status': status()})
         elif o[0] == 'resume':
             t = None if o[1] is None else T0 + o[1] / fs
             if t is not None and flag == 'np':
@@ -507,7 +507,7 @@ def coq_expr(case, res, tests_fn=None):
     if p == 'random':
         for r in res:
             choices += [e[1] for e in r.get('events', []) if e[0] == 'added']
-    perms = blocked_perms(case.get('seed', 0), n) if p == 'blocked_random' else []
+    perms = blocked_perms(case.get('seed', 0), n, case.get('nperms', 120)) if p == 'blocked_random' else []
     args = (f"{pol} {listlit(['(' + e + ')' for e in es])} {zlist(choices)} "
             f"{listlit([zlist(pm) for pm in perms])}")
     tests = tests_fn(args, case) if (tests_fn and plain_history(case)) else []
@@ -535,10 +535,6 @@ def decode(mo, nst):
         if code == 2:
             out.append({'raised': True})
             break
-        if code == 4:
-            ne = take()
-            out.append({'raised': True, 'events': [list(take(4)) for _ in range(ne)]})
-            break
         if code == 6:
             out.append({'closest': take()})
             continue
@@ -546,7 +542,7 @@ def decode(mo, nst):
         samples = [tuple(take(2)) for _ in range(ns)]
         ne = take()
         events = [list(take(4)) for _ in range(ne)]
-        out.append({'samples': samples, 'events': events, 'status': status()})
+        out.append({'samples': samples, 'events': events, 'status': status(), 'rejected': code == 4})
     return out
 
 
@@ -609,11 +605,14 @@ def compare(case, res, mo, ntests=0):
         if 'second' in r and r['second'] != [e[1] for e in r['events'] if e[0] == 'added']:
             return f"op {i} {o}: a second 'added' subscriber saw {r['second']}"
     for i, ((o, r), d) in enumerate(zip(pairs, dec)):
-        if 'raised' in r:
+        if 'raised' in r and o[0] == 'pause':
+            if not d.get('rejected'):
+                return f'op {i} {o}: implementation rejected the pause with {r["raised"]}, model did not'
+        elif 'raised' in r:
             if not d.get('raised'):
                 return f'op {i} {o}: implementation raised {r["raised"]}, model did not'
             continue
-        if d.get('raised'):
+        elif d.get('raised') or d.get('rejected'):
             return f'op {i} {o}: model raises, implementation did not'
         if o[0] == 'closest':
             if r['key'] != d.get('closest'):
